@@ -18,6 +18,7 @@ func init() { register("C16", checkC16) }
 
 func checkC16(r *Result) {
 	P := r.P
+	defer checkLostUpdates(r, "C16")
 	r.Explanation = "Bookkeeping rules of the bridge validator-set checkpoints, decided on SSA: a validator enters the bridge set only with a registered EVM address and non-zero power, and the set is ordered by (power descending, address ascending) — the comparator is evaluated over all orderings of its keys for direction as well as for being a strict weak order; the decision of CompareAndSetBridgeValidators to write a new checkpoint, taken over all path valuations of {no saved set, byte-identical, stale, power diff below 5%}, is exactly 'no saved set, or stale, or (not identical and diff not below 5%)', with the constants 5*10^4 / 10^6 and two weeks folded; the maps written for one checkpoint (params, index->timestamp, timestamp->index, set by timestamp, signature slots) use one timestamp value, the stored params are the hash / threshold / timestamp that were encoded, and the index is previous + 1 by read-modify-write; the three users of 'the previous set' (slot sizing, slot selection, slot reading) reach it through the same access path and the slot index is the position of the signer's registered EVM address in that set."
 	r.NotDecided = "followability as an inductive property over staking histories and the contract's acceptance logic; that 2/3 of the previous set actually signs"
 	r.Assumptions = []string{"the end blocker calls CompareAndSetBridgeValidators once per block", "block time (ms) is unique per block, so a checkpoint timestamp names one cohort"}
